@@ -76,6 +76,7 @@ def scan_trusted(text):
 
 ERR_RE = re.compile(r"^(error|warning)(\[[A-Z0-9]+\])?: (.*)$")
 LOC_RE = re.compile(r"^\s*--> ([^:]+):(\d+):(\d+)")
+NUM_RE = re.compile(r"^\s*(\d+) \|")
 
 
 def parse_stderr(text):
@@ -96,6 +97,13 @@ def parse_stderr(text):
             m = LOC_RE.match(line)
             if m and cur["line"] is None:
                 cur["line"] = int(m.group(2))
+            # a failed postcondition is reported AT the clause (which may sit in a trait
+            # declaration); the function that failed it is the secondary span
+            m = NUM_RE.match(line)
+            if m:
+                cur["_last_num"] = int(m.group(1))
+            if ("at the end of the function body" in line or "at this exit" in line) and cur.get("_last_num") and not cur.get("fn_line"):
+                cur["fn_line"] = cur["_last_num"]
     for e in out:
         e["text"] = "\n".join(e["text"])[:3000]
     return out
@@ -176,7 +184,7 @@ def analyse(unit, path, report, res):
         if e["line"] is None:
             internal.append(e)
             continue
-        it = item_for_line(report, e["line"])
+        it = item_for_line(report, e.get("fn_line") or e["line"]) or item_for_line(report, e["line"])
         rec = {"label": it["label"] if it else None, "props": (it.get("props") if it else None), "msg": e["msg"], "text": e["text"], "line": e["line"], "tags": clause_tags(gen_lines, e["line"])[0], "composite": clause_tags(gen_lines, e["line"])[1]}
         if "rlimit" in e["msg"].lower() or "resource limit" in e["msg"].lower():
             rlimited.append(rec)
@@ -428,6 +436,14 @@ def _check(prop, cfg, tier, seed, scratch, t0):
         for label, fs in by_label.items():
             it = next((i for i in rep["items"] if i["label"] == label), None)
             if it is None:
+                continue
+            if it.get("loops_total", 0) > it.get("loops_annotated", 0):
+                # the function now contains a loop that carries no invariant: its obligations are
+                # unprovable whatever it computes -- "needs contract", not a verdict about the code
+                if tagged(it, prop):
+                    novalue.append("%s: the function now contains %d loop(s) but the contract template has invariants for %d; "
+                                   "a loop without an invariant cannot be verified whatever it computes (the template needs one)"
+                                   % (label, it["loops_total"], it["loops_annotated"]))
                 continue
             # facet clauses (tagged, not composite) speak for their properties only; when none of
             # them failed, the composite / untagged failures speak for everything they cover
